@@ -6,6 +6,7 @@ baseline (must stay 518/518), the demonstration (must pass on /repo, fail on the
 patched tree) and the named checks with VERIF_REPO pointing at the patched tree
 (evidence/replays redirected to the scratch directory).  Removes the worktree."""
 import json, os, shutil, subprocess, sys, tempfile
+ROOT = os.path.dirname(os.path.dirname(os.path.abspath(__file__)))
 patch, demo, props = sys.argv[1], sys.argv[2], sys.argv[3:]
 tier = os.environ.get('SEED_TIER', 'quick')
 work = tempfile.mkdtemp(prefix='seedtest-')
@@ -21,7 +22,7 @@ try:
     if not res['applies']:
         res['apply_error'] = (a.stderr or a.stdout)[-300:]
     else:
-        b = subprocess.run(['/verif/tools/baseline.py'], env=dict(os.environ, VERIF_REPO=tree), capture_output=True, text=True)
+        b = subprocess.run([os.path.join(ROOT, 'tools', 'baseline.py')], env=dict(os.environ, VERIF_REPO=tree), capture_output=True, text=True)
         res['baseline'] = b.stdout.strip().split('\n')[0]
         res['baseline_ok'] = b.returncode == 0
         if demo != '-':
@@ -32,7 +33,7 @@ try:
             res['demo_patched_rc'] = d1.returncode
             res['demo_patched_tail'] = (d1.stdout + d1.stderr).strip()[-300:]
         for p in props:
-            c = subprocess.run(['/verif/check', p, '--tier', tier, '--no-build'], env=dict(os.environ, VERIF_REPO=tree, VERIF_OUT=out), capture_output=True, text=True, cwd='/verif')
+            c = subprocess.run([os.path.join(ROOT, 'check'), p, '--tier', tier, '--no-build'], env=dict(os.environ, VERIF_REPO=tree, VERIF_OUT=out), capture_output=True, text=True, cwd=ROOT)
             lines = [l for l in c.stdout.split('\n') if l.startswith(('VIOLATION', 'KNOWN-FINDING'))]
             viol = []
             for l in lines:
